@@ -7,5 +7,11 @@ def goldenHash : Bytes := ([89, 191, 62, 150, 76, 39, 42, 253, 130, 69, 253, 42,
 def emptyHash : Bytes := ([227, 176, 196, 66, 152, 252, 28, 20, 154, 251, 244, 200, 153, 111, 185, 36, 39, 174, 65, 228, 100, 155, 147, 76, 164, 149, 153, 27, 120, 82, 184, 85] : Bytes)
 def key01 : String := "/batches/19d50b3346fa31fabd157fb3a00641ff76f059b1a45da9d4348372f53d91d473"
 def key02 : String := "/batches/09d4b5974a078714b3504959d4c67fe817f089878e2e6e1950b86e65f8494202"
+/-- every method of `BatchQueue` in the current source; `true` = pointer receiver, first statement `bq.mu.Lock()`, second `defer bq.mu.Unlock()`, no other use of the mutex, no goroutine / function literal -/
+def queueMethods : List (String × Bool) := [("AddBatch", true), ("Load", true), ("Next", true)]
+/-- places outside `BatchQueue`'s methods and constructor that select a field of a `BatchQueue` (`x.queue.{queue,mu,db,maxQueueSize}`) -/
+def queueFieldEscapes : Nat := 0
+/-- the `Sequencer` methods that call the queue: number of call sites `c.queue.M(…)`; `true` = no loop / goroutine / function literal and no assignment to a field of the receiver -/
+def sequencerQueueCalls : List (String × Nat × Bool) := [("GetNextBatch", 1, true), ("SubmitBatchTxs", 1, true)]
 
 end Gen.C10
